@@ -145,6 +145,19 @@ class _Mock(http.server.BaseHTTPRequestHandler):
         if mode == "close":
             self.connection.close()
             return
+        if mode in ("latin1-label", "no-ctype", "bad-utf8"):
+            # raw bytes: a UTF-8 JSON body under a Content-Type that names another charset / no Content-Type at all; a JSON-shaped body
+            # whose string holds bytes that are not UTF-8 (not JSON: RFC 8259 JSON exchanged between systems is UTF-8)
+            data = self.server.payload.encode("utf-8")
+            if mode == "bad-utf8":
+                data = data.replace(b'"Kind"', b'"K\xff\xfend"', 1)
+            self.send_response(200)
+            if mode != "no-ctype":
+                self.send_header("Content-Type", "application/json; charset=ISO-8859-1" if mode == "latin1-label" else "application/json")
+            self.send_header("Content-Length", str(len(data)))
+            self.end_headers()
+            self.wfile.write(data)
+            return
         status, payload, ctype = {"ok": (200, self.server.payload, "application/json"), "garbage": (200, "<html>not json</html>", "text/html"),
                                   "400json": (400, '{"errors":[{"message":"bad"}]}', "application/json"), "500": (500, "boom", "text/plain"),
                                   "404": (404, "nope", "text/plain")}[mode]
@@ -256,7 +269,33 @@ def c20_cases(tier):
         return None
     yield "second run into the same output file", shrink
 
-    for mode in ("garbage", "400json", "404", "500", "close"):
+    # the reply's JSON is written semantically unchanged whatever the transport labels say: non-ASCII text, a Content-Type naming
+    # another charset, no Content-Type
+    def non_ascii(mode):
+        def thunk():
+            sch = dict(schema, enums={"Kind": ["A", "B"]})
+            pl = json.dumps({"data": json.loads(render_json(sch)), "extensions": {"note": "entr\u00e9e \u2013 \u65e5\u672c"}}, ensure_ascii=False)
+            d = _fresh("c20")
+            out = os.path.join(d, "schema.json")
+            srv = _serve(mode, pl)
+            try:
+                res = run_cli(["introspect-schema", "http://127.0.0.1:%d/graphql" % srv.server_address[1], "--output", out], timeout=30)
+            finally:
+                srv.shutdown()
+            if res["exit"] != 0:
+                return "a 200 reply with a UTF-8 JSON body (%s) is refused: exit %s %s" % (mode, res["exit"], res["stderr"][-120:])
+            try:
+                got = json.loads(open(out, encoding="utf-8").read())
+            except Exception as e:
+                return "the written file is not UTF-8 JSON (%s): %s" % (mode, str(e)[:80])
+            if got != json.loads(pl):
+                return "the written file is not the server's JSON (%s): non-ASCII text arrives as %r" % (mode, got.get("extensions"))
+            return None
+        return thunk
+    for mode in ("ok", "latin1-label", "no-ctype"):
+        yield "non-ASCII reply, transport %s" % mode, non_ascii(mode)
+
+    for mode in ("garbage", "400json", "404", "500", "close", "bad-utf8"):
         def thunk(mode=mode):
             res, seen, out = run(mode, [], existing="KEEP")
             if res["exit"] == 0:
